@@ -74,3 +74,54 @@ async fn reservation_index_contract() {
         }
     }
 }
+
+/// C14 (bundling): a bundled block takes every pooled transaction with it and leaves no reservation behind — with and
+/// without a staking transaction, for one to three pooled transactions.
+#[tokio::test]
+#[serial_test::serial]
+async fn bundling_empties_the_pool_and_its_reservations() {
+    use std::ops::Deref;
+    let mut bundled = 0;
+    for staking in [false, true] {
+        for n_pooled in 1..=3usize {
+            let mut t = TestManager::default();
+            t.initialize(100, 200_000_000_000_000).await;
+            if staking { t.enable_staking(200_000_000_000_000).await; }
+            let (pk, sk) = { let w = t.wallet_lock.read().await; (w.public_key, w.private_key) };
+            let configs = t.config_lock.read().await;
+            let genesis_period = configs.get_consensus_config().unwrap().genesis_period;
+            let blockchain = t.blockchain_lock.read().await;
+            let tip_id = blockchain.get_latest_block_id();
+            let ts = blockchain.get_latest_block().unwrap().timestamp;
+            let mut mempool = t.mempool_lock.write().await;
+            let mut pooled = vec![];
+            for k in 0..n_pooled {
+                let mut tx = { let mut w = t.wallet_lock.write().await; Transaction::create(&mut w, pk, 1_000 + k as u64, 0, false, None, tip_id, genesis_period).unwrap() };
+                tx.timestamp = ts + 1 + k as u64;
+                tx.sign(&sk);
+                tx.generate(&pk, 0, 0);
+                mempool.add_transaction_if_validates(tx.clone(), &blockchain).await;
+                assert!(mempool.transactions.contains_key(&tx.signature), "setup: transaction {} pooled", k);
+                pooled.push(tx);
+            }
+            let block = mempool.bundle_block(&blockchain, ts + 120_000, None, configs.deref(), &t.storage).await;
+            let desc = format!("{} pooled transaction(s), staking transaction {}", n_pooled, if staking { "required" } else { "not required" });
+            match block {
+                None => {
+                    if mempool.transactions.len() != n_pooled { witness(format!("bundling gave no block but the pool changed ({} → {} transactions): {}", n_pooled, mempool.transactions.len(), desc)); }
+                }
+                Some(block) => {
+                    bundled += 1;
+                    for tx in pooled.iter() { if !block.transactions.iter().any(|b| b.signature == tx.signature) { witness(format!("a pooled transaction is neither in the bundled block nor in the pool: {}", desc)); } }
+                    if !mempool.transactions.is_empty() { witness(format!("{} transaction(s) still pooled after bundling: {}", mempool.transactions.len(), desc)); }
+                    if !mempool.utxo_map.is_empty() {
+                        witness(format!("{} input(s) still reserved after bundling although no transaction is pooled (block carries {:?}): {}", mempool.utxo_map.len(),
+                            block.transactions.iter().map(|tx| format!("{:?}", tx.transaction_type)).collect::<Vec<_>>(), desc));
+                    }
+                    if mempool.get_routing_work_available() != 0 { witness(format!("routing work {} reported for an empty pool: {}", mempool.get_routing_work_available(), desc)); }
+                }
+            }
+        }
+    }
+    assert!(bundled >= 4, "setup: bundling must succeed in most scenarios (succeeded in {})", bundled);
+}
